@@ -389,7 +389,25 @@ theorem dirUnlink_frame : ∀ (fuel : Nat) (recursive : Bool) (fs : Fs) (path : 
 
 /-! ### well-formed worlds: removing exactly the tree -/
 
-def NoDupKeys (fs : Fs) : Prop := ∀ x ∈ fs.ents, ∀ y ∈ fs.ents, x.1 = y.1 → x = y
+/-- no canonical path is stored twice -/
+def NoDupKeys (fs : Fs) : Prop := (fs.ents.map (·.1)).Nodup
+
+theorem nodup_unique : ∀ (l : List (CPath × Entry)), (l.map (·.1)).Nodup →
+    ∀ x ∈ l, ∀ y ∈ l, x.1 = y.1 → x = y := by
+  intro l
+  induction l with
+  | nil => intro _ x hx; simp at hx
+  | cons a rest ih =>
+    intro hn x hx y hy hxy
+    simp only [List.map_cons, List.nodup_cons] at hn
+    simp only [List.mem_cons] at hx hy
+    rcases hx with rfl | hx
+    · rcases hy with rfl | hy
+      · rfl
+      · exact absurd (List.mem_map.mpr ⟨y, hy, hxy.symm⟩) hn.1
+    · rcases hy with rfl | hy
+      · exact absurd (List.mem_map.mpr ⟨x, hx, hxy⟩) hn.1
+      · exact ih hn.2 x hx y hy hxy
 
 /-- every proper, non-empty prefix of a stored path is stored as a directory -/
 def ParentsOk (fs : Fs) : Prop :=
@@ -439,14 +457,13 @@ theorem mem_lookup (fs : Fs) (hn : NoDupKeys fs) (p : CPath) (e : Entry) (h : (p
     exact this fs.ents h hl
   | some e' =>
     have := lookup_some_mem fs.ents p e' hl
-    have := hn (p, e) h (p, e') this rfl
+    have := nodup_unique fs.ents hn (p, e) h (p, e') this rfl
     simp only [Prod.mk.injEq, true_and] at this
     rw [this]
 
 theorem del_wf (fs : Fs) (p : CPath) (hwf : WF fs) (hleaf : Leaf fs p) : WF (fs.del p) := by
   refine ⟨hwf.names.sub (del_sub fs p), ?_, ?_⟩
-  · intro x hx y hy hxy
-    exact hwf.nodup x (del_sub fs p x hx) y (del_sub fs p y hy) hxy
+  · exact List.Nodup.sublist ((List.filter_sublist).map _) hwf.nodup
   · intro x hx k hk2 hk1
     have hx' := del_sub fs p x hx
     obtain ⟨y, hy, hy1, hy2⟩ := hwf.parents x hx' k hk2 hk1
@@ -739,5 +756,295 @@ theorem dirUnlink_true_gone (fuel : Nat) (recursive : Bool) (fs : Fs) (path : By
                   cases r3 with
                   | error _ => simp [isOk] at h
                   | ok u => simp only; exact rmdir_ok_gone fs2 fs3 path d hloopw hpp2 hr2
+
+
+/-! ### success: the recursion reaches and removes everything -/
+
+theorem child_path_eq (d y : CPath) (n : Name) (hp : d.isPrefixOf y = true) (hd : y.drop d.length = [n]) : y = d ++ [n] := by
+  have := List.prefix_iff_eq_append.mp (List.isPrefixOf_iff_prefix.mp hp)
+  rw [hd] at this
+  exact this.symm
+
+theorem mem_children (fs : Fs) (d : CPath) (n : Name) (e : Entry) :
+    (n, e) ∈ fs.children d ↔ (d ++ [n], e) ∈ fs.ents := by
+  simp only [Fs.children, List.mem_filterMap]
+  constructor
+  · rintro ⟨y, hy, hyx⟩
+    by_cases hp : d.isPrefixOf y.1 = true
+    · rw [if_pos hp] at hyx
+      cases hdr : y.1.drop d.length with
+      | nil => simp [hdr] at hyx
+      | cons m rest =>
+        cases rest with
+        | nil =>
+          simp [hdr] at hyx
+          obtain ⟨h1, h2⟩ := hyx
+          subst h1
+          have := child_path_eq d y.1 m hp hdr
+          rw [← this, ← h2]; exact hy
+        | cons _ _ => simp [hdr] at hyx
+    · rw [if_neg hp] at hyx; simp at hyx
+  · intro h
+    refine ⟨(d ++ [n], e), h, ?_⟩
+    have hp : d.isPrefixOf (d ++ [n]) = true := List.isPrefixOf_iff_prefix.mpr (List.prefix_append _ _)
+    simp [hp]
+
+theorem children_distinct (fs : Fs) (hn : NoDupKeys fs) (d : CPath) :
+    List.Pairwise (fun a b : Name × Entry => a.1 ≠ b.1) (fs.children d) := by
+  unfold NoDupKeys List.Nodup at hn
+  rw [List.pairwise_map] at hn
+  unfold Fs.children
+  apply List.Pairwise.filterMap _ _ hn
+  intro x y hxy b hb b' hb' hbb
+  apply hxy
+  by_cases hp : d.isPrefixOf x.1 = true
+  · by_cases hp' : d.isPrefixOf y.1 = true
+    · rw [if_pos hp] at hb
+      rw [if_pos hp'] at hb'
+      cases hdr : x.1.drop d.length with
+      | nil => simp [hdr] at hb
+      | cons m rest =>
+        cases rest with
+        | cons _ _ => simp [hdr] at hb
+        | nil =>
+          cases hdr' : y.1.drop d.length with
+          | nil => simp [hdr'] at hb'
+          | cons m' rest' =>
+            cases rest' with
+            | cons _ _ => simp [hdr'] at hb'
+            | nil =>
+              simp [hdr] at hb
+              simp [hdr'] at hb'
+              have h1 := child_path_eq d x.1 m hp hdr
+              have h2 := child_path_eq d y.1 m' hp' hdr'
+              rw [h1, h2]
+              have : m = m' := by rw [← hb] at hbb; rw [← hb'] at hbb; exact hbb
+              rw [this]
+    · rw [if_neg hp'] at hb'; simp at hb'
+  · rw [if_neg hp] at hb; simp at hb
+
+theorem get_of_mem (fs : Fs) (hn : NoDupKeys fs) (q : CPath) (e : Entry) (hq : q ≠ []) (h : (q, e) ∈ fs.ents) :
+    fs.get q = some e := by
+  unfold Fs.get
+  rw [if_neg hq]
+  exact mem_lookup fs hn q e h
+
+/-- the loop over distinct, still present entries of a plain directory succeeds and removes them all -/
+theorem unlinkEntries_succeeds (rec : Fs → Bytes → Fs × Bool) (dir : Bytes) (d : CPath)
+    (hframe : ∀ fs path d, NamesOk fs → PlainParent fs path d → Frame d fs (rec fs path).1)
+    (hwfr : ∀ fs p, WF fs → WF (rec fs p).1)
+    (hgone : ∀ fs path d, WF fs → PlainParent fs path d → (rec fs path).2 = true → ∀ q, d <+: q → (rec fs path).1.get q = none)
+    (bound : Fs → CPath → Prop) (hbsub : ∀ fs fs' c, Sub fs' fs → bound fs c → bound fs' c)
+    (hsucc : ∀ fs path c, WF fs → PlainParent fs path c → fs.get c = some .dir → bound fs c → (rec fs path).2 = true) :
+    ∀ (ents : List (Name × Entry)) (fs : Fs), WF fs → PlainParent fs dir d → fs.get d = some .dir →
+      (∀ x ∈ ents, IsName x.1) → List.Pairwise (fun a b : Name × Entry => a.1 ≠ b.1) ents →
+      (∀ x ∈ ents, fs.get (d ++ [x.1]) = some x.2) → (∀ x ∈ ents, bound fs (d ++ [x.1])) →
+      (unlinkEntries rec (dir ++ [47]) fs ents).2 = true ∧
+      ∀ x ∈ ents, (unlinkEntries rec (dir ++ [47]) fs ents).1.get (d ++ [x.1]) = none := by
+  intro ents
+  induction ents with
+  | nil => intro fs _ _ _ _ _ _ _; exact ⟨rfl, fun x hx => by simp at hx⟩
+  | cons x rest ih =>
+    intro fs hwf hpp hg hnames hpw hpres hbound
+    obtain ⟨n, e⟩ := x
+    have hn : IsName n := hnames (n, e) (List.mem_cons_self)
+    have hcp := plainParent_child fs dir d n hpp hg hn
+    have hge : fs.get (d ++ [n]) = some e := hpres (n, e) (List.mem_cons_self)
+    rw [List.pairwise_cons] at hpw
+    -- after the first entry has been removed (world fs1), the rest goes through by induction
+    have step : ∀ fs1 : Fs, Frame (d ++ [n]) fs fs1 → WF fs1 → (∀ q, d ++ [n] <+: q → fs1.get q = none) →
+        (unlinkEntries rec (dir ++ [47]) fs1 rest).2 = true ∧
+        ∀ x ∈ (n, e) :: rest, (unlinkEntries rec (dir ++ [47]) fs1 rest).1.get (d ++ [x.1]) = none := by
+      intro fs1 hf hwf1 hgone1
+      have hag : ∀ q, NotInside d q → fs1.get q = fs.get q := fun q hq => hf.out q (not_prefix_child d q n hq)
+      have hnd : NotInside d d := fun hh => hh.2 rfl
+      have hpp1 := plainParent_transfer fs fs1 dir d hag hpp
+      have hother : ∀ y ∈ rest, fs1.get (d ++ [y.1]) = fs.get (d ++ [y.1]) := by
+        intro y hy
+        apply hf.out
+        intro hpre
+        have hne := hpw.1 y hy
+        obtain ⟨t, ht⟩ := hpre
+        have h1 := congrArg List.length ht
+        simp at h1
+        have ht0 : t = [] := by cases t with | nil => rfl | cons a b => simp at h1
+        subst ht0
+        simp at ht
+        exact hne ht
+      have := ih fs1 hwf1 hpp1 (by rw [hag d hnd]; exact hg)
+        (fun y hy => hnames y (List.mem_cons_of_mem _ hy)) hpw.2
+        (fun y hy => by rw [hother y hy]; exact hpres y (List.mem_cons_of_mem _ hy))
+        (fun y hy => hbsub fs fs1 _ hf.sub (hbound y (List.mem_cons_of_mem _ hy)))
+      refine ⟨this.1, ?_⟩
+      intro y hy
+      simp only [List.mem_cons] at hy
+      rcases hy with rfl | hy
+      · -- the first entry stays removed: later steps only remove
+        have hsub2 := (unlinkEntries_frame rec hframe dir d rest fs1
+          (fun y hy => hnames y (List.mem_cons_of_mem _ hy)) hwf1.names hpp1 (by rw [hag d hnd]; exact hg)).1
+        have h0 := hgone1 (d ++ [n]) (List.prefix_refl _)
+        cases hq : (unlinkEntries rec (dir ++ [47]) fs1 rest).1.get (d ++ [n]) with
+        | none => rfl
+        | some e2 =>
+          exfalso
+          have hm := get_some_mem _ _ e2 (by simp) hq
+          have hm1 := hsub2 _ hm
+          have hw := unlinkEntries_wf rec hwfr (dir ++ [47]) rest fs1 hwf1
+          rw [get_of_mem fs1 hwf1.nodup _ e2 (by simp) hm1] at h0
+          simp at h0
+      · exact this.2 y hy
+    cases e with
+    | dir =>
+      simp only [unlinkEntries]
+      have hf := hframe fs (dir ++ [47] ++ n) (d ++ [n]) hwf.names hcp
+      have hw1 := hwfr fs (dir ++ [47] ++ n) hwf
+      have hs := hsucc fs (dir ++ [47] ++ n) (d ++ [n]) hwf hcp hge (hbound (n, .dir) (List.mem_cons_self))
+      have hg1 := hgone fs (dir ++ [47] ++ n) (d ++ [n]) hwf hcp hs
+      cases hr : rec fs (dir ++ [47] ++ n) with
+      | mk fs1 ok =>
+        rw [hr] at hf hw1 hs hg1
+        simp only at hs
+        subst hs
+        exact step fs1 hf hw1 hg1
+    | file dd =>
+      simp only [unlinkEntries]
+      have hul := unlink_plain fs (dir ++ [47] ++ n) (d ++ [n]) hcp
+      rw [hge] at hul
+      simp only at hul
+      have hfu : fileUnlink fs (dir ++ [47] ++ n) = (fs.del (d ++ [n]), true) := by
+        unfold fileUnlink; rw [hul]; rfl
+      rw [hfu]
+      refine step (fs.del (d ++ [n])) (frame_del fs _ (by simp)) ?_ ?_
+      · exact del_wf fs _ hwf (leaf_of_nondir fs hwf _ _ (by simp) hge (by simp))
+      · intro q hq
+        have hleaf := leaf_of_nondir fs hwf (d ++ [n]) (.file dd) (by simp) hge (by simp)
+        rw [get_del fs _ q (by simp)]
+        by_cases hqd : q = d ++ [n]
+        · simp [hqd]
+        · rw [if_neg hqd]
+          cases hgq : fs.get q with
+          | none => rfl
+          | some eq =>
+            exfalso
+            have hqne : q ≠ [] := by
+              intro h0; subst h0; obtain ⟨t, ht⟩ := hq; simp at ht
+            exact hleaf (q, eq) (get_some_mem fs q eq hqne hgq) ⟨hq, hqd⟩
+    | link t =>
+      simp only [unlinkEntries]
+      have hul := unlink_plain fs (dir ++ [47] ++ n) (d ++ [n]) hcp
+      rw [hge] at hul
+      simp only at hul
+      have hfu : fileUnlink fs (dir ++ [47] ++ n) = (fs.del (d ++ [n]), true) := by
+        unfold fileUnlink; rw [hul]; rfl
+      rw [hfu]
+      refine step (fs.del (d ++ [n])) (frame_del fs _ (by simp)) ?_ ?_
+      · exact del_wf fs _ hwf (leaf_of_nondir fs hwf _ _ (by simp) hge (by simp))
+      · intro q hq
+        have hleaf := leaf_of_nondir fs hwf (d ++ [n]) (.link t) (by simp) hge (by simp)
+        rw [get_del fs _ q (by simp)]
+        by_cases hqd : q = d ++ [n]
+        · simp [hqd]
+        · rw [if_neg hqd]
+          cases hgq : fs.get q with
+          | none => rfl
+          | some eq =>
+            exfalso
+            have hqne : q ≠ [] := by
+              intro h0; subst h0; obtain ⟨t, ht⟩ := hq; simp at ht
+            exact hleaf (q, eq) (get_some_mem fs q eq hqne hgq) ⟨hq, hqd⟩
+
+
+theorem foldl_max_ge : ∀ (l : List (CPath × Entry)) (m : Nat),
+    m ≤ l.foldl (fun m x => max m x.1.length) m ∧ ∀ x ∈ l, x.1.length ≤ l.foldl (fun m x => max m x.1.length) m := by
+  intro l
+  induction l with
+  | nil => intro m; exact ⟨Nat.le_refl _, fun x hx => by simp at hx⟩
+  | cons a rest ih =>
+    intro m
+    simp only [List.foldl_cons]
+    have := ih (max m a.1.length)
+    refine ⟨Nat.le_trans (Nat.le_max_left _ _) this.1, ?_⟩
+    intro x hx
+    simp only [List.mem_cons] at hx
+    rcases hx with rfl | hx
+    · exact Nat.le_trans (Nat.le_max_right _ _) this.1
+    · exact this.2 x hx
+
+theorem le_maxDepth (fs : Fs) : ∀ x ∈ fs.ents, x.1.length ≤ maxDepth fs := (foldl_max_ge fs.ents 0).2
+
+/-- recursive Directory::unlink of an existing plain directory succeeds when the fuel covers the depth -/
+theorem dirUnlink_succeeds : ∀ (fuel : Nat) (fs : Fs) (path : Bytes) (d : CPath),
+    WF fs → PlainParent fs path d → fs.get d = some .dir →
+    (∀ x ∈ fs.ents, d <+: x.1 → x.1.length < d.length + fuel) →
+    (dirUnlink fuel true fs path).2 = true := by
+  intro fuel
+  induction fuel with
+  | zero =>
+    intro fs path d _ hpp hg hb
+    have hd := plainParent_ne_nil hpp
+    have := hb (d, .dir) (get_some_mem fs d .dir hd hg) (List.prefix_refl _)
+    simp at this
+  | succ fuel ih =>
+    intro fs path d hwf hpp hg hb
+    have hd := plainParent_ne_nil hpp
+    simp only [dirUnlink]
+    rw [rmdir_plain fs path d hpp, hg]
+    simp only
+    by_cases hch : fs.children d ≠ []
+    · rw [if_pos hch]
+      simp only
+      rw [if_neg (by simp), readdir_plain fs path d hpp hg]
+      simp only
+      have hloop := unlinkEntries_succeeds (dirUnlink fuel true) path d
+        (fun a b c h1 h2 => dirUnlink_frame fuel true a b c h1 h2)
+        (fun a b hw => dirUnlink_wf fuel true a b hw)
+        (fun a b c hw hp hs => dirUnlink_true_gone fuel true a b c hw hp hs)
+        (fun fs c => ∀ x ∈ fs.ents, c <+: x.1 → x.1.length < c.length + fuel)
+        (fun a a' c hs hbd x hx => hbd x (hs x hx))
+        (fun a b c hw hp hgc hbd => ih a b c hw hp hgc hbd)
+        (fs.children d) fs hwf hpp hg (children_names fs hwf.names d) (children_distinct fs hwf.nodup d)
+        (fun x hx => get_of_mem fs hwf.nodup _ _ (by simp) ((mem_children fs d x.1 x.2).mp hx))
+        (fun x _ y hy hpre => by
+          have hdy : d <+: y.1 := List.IsPrefix.trans (List.prefix_append d [x.1]) hpre
+          have := hb y hy hdy
+          simp only [List.length_append, List.length_cons, List.length_nil]
+          omega)
+      have hfr := unlinkEntries_frame (dirUnlink fuel true)
+        (fun a b c h1 h2 => dirUnlink_frame fuel true a b c h1 h2) path d
+        (fs.children d) fs (children_names fs hwf.names d) hwf.names hpp hg
+      have hw2 := unlinkEntries_wf (dirUnlink fuel true) (fun a b hw => dirUnlink_wf fuel true a b hw)
+        (path ++ [47]) (fs.children d) fs hwf
+      cases hu : unlinkEntries (dirUnlink fuel true) (path ++ [47]) fs (fs.children d) with
+      | mk fs2 ok =>
+        rw [hu] at hloop hfr hw2
+        obtain ⟨hok, hgone⟩ := hloop
+        simp only at hok
+        subst hok
+        simp only
+        have hpp2 := plainParent_transfer fs fs2 path d hfr.2 hpp
+        have hg2 : fs2.get d = some .dir := by rw [hfr.2 d (fun hh => hh.2 rfl)]; exact hg
+        have hch2 : fs2.children d = [] := by
+          cases hc : fs2.children d with
+          | nil => rfl
+          | cons z zs =>
+            exfalso
+            have hz : z ∈ fs2.children d := by rw [hc]; simp
+            have hm2 := (mem_children fs2 d z.1 z.2).mp hz
+            have hm := hfr.1 _ hm2
+            have hzc := (mem_children fs d z.1 z.2).mpr hm
+            have h0 := hgone z hzc
+            rw [get_of_mem fs2 hw2.nodup _ _ (by simp) hm2] at h0
+            simp at h0
+        rw [rmdir_plain fs2 path d hpp2, hg2]
+        simp [hch2, isOk]
+    · rw [if_neg hch]
+
+theorem dirUnlinkTop_succeeds (fs : Fs) (path : Bytes) (d : CPath) (hwf : WF fs) (hpp : PlainParent fs path d)
+    (hg : fs.get d = some .dir) : (dirUnlinkTop fs path true).2 = true := by
+  unfold dirUnlinkTop
+  apply dirUnlink_succeeds _ fs path d hwf hpp hg
+  intro x hx _
+  have := le_maxDepth fs x hx
+  omega
 
 end Nstd.Path
